@@ -110,7 +110,7 @@ CHECKS = {
         "min_events": {"quick": {"consumer_recreated": 150}, "thorough": {"consumer_recreated": 3000}},
         "rule": ("One history = one server (wait confirmation), one real IggyProducer and 1-2 real IggyConsumers built through IggyClient over the SDK's own TcpClient. Seeded settings: "
                  "1-3 partitions; producer batch size {none,1,2,3,10,1000}, send interval {none,1ms,3ms}, partitioning {default, balanced, partition id, key}, 4-13 calls drawn from "
-                 "send / send_one / send_with_partitioning(partition|key) / send_to(other stream and/or topic), optional client-side encryption; consumer single (one partition) or group (1-2 members), "
+                 "send / send_one / send_with_partitioning(partition|key) / send_to(other stream and/or topic), optional client-side encryption, optional injected refusal of every 2nd/3rd send request before it is written (retry path); consumer single (one partition) or group (1-2 members), "
                  "strategy {next, offset(0), first, last}, batch size {1,2,3,5,10,100}, commit mode {disabled+manual, polling, all, each, every n-th, interval, interval-or-polling, interval-or-each, after-each, after-all, after-every-n-th (via consume_messages)}, "
                  "2-5 phases in which a member consumes a seeded number of messages and is then (2/3) dropped and re-created with the same identity on the same or a fresh client. "
                  "A tap on the transport's request/response boundary records every fetch (offsets returned) and offset commit; the driver logs every yielded message into the same sequence; "
